@@ -17,4 +17,4 @@ def run(tier, seed):
     ]
     return concfam.run_conc("C08", tier, seed, jobs, GUARDS, step_guards=concfam.STEP_GUARDS, mc=("MiPage", ("MiPage_mc.cfg", "MiPage_mc_thorough.cfg")), guided_progs=("page",),
                             assumptions=["QuiescentClean is demanded after a forced mi_heap_collect of the owner's (user) heap once every block was freed by whichever thread",
-                                         "NoBlowUp compares the maximum number of page areas of the producer heap in the second half of 2400 rounds with the first half (+2), with the default and a maximal MIMALLOC_GENERIC_COLLECT"])
+                                         "NoBlowUp compares the maximum number of page areas of the producer heap in the second half of 2400 rounds with the first half (+2 + an eighth of it), with the default and a maximal MIMALLOC_GENERIC_COLLECT"])
